@@ -9,6 +9,11 @@ Spec: spec/IdlGrammar.
   IdlIncludes.tla   the family of include graphs (acyclic, up to 4 files, the order of the include lines part of the graph, the
                     root file written as one module or as two), enumerated exhaustively by TLC, each with the program in which
                     every file uses types of every file it includes (members, defaults, containers, arrays, parameters, results);
+  IdlIncludeGraphs.tla  the family of include graphs of ANY shape (a line may name any file of the graph, itself included, or a
+                    file that does not exist): self-include, cycles of 2..n files through the root or below it, cycles and missing
+                    files that only a later include line leads to, diamonds, triangles; enumerated exhaustively by TLC up to
+                    renumbering; Oracle_IncludeGraphs judges what the binary did on the files of each graph (in the language <=> no
+                    cycle and nothing missing below the root: exit 0 and compiling output; otherwise: it ends, with a diagnostic);
   IdlSwitches.tla   the family of assignments of the tool's switches that change what it emits (+ the include search path),
                     enumerated by TLC; every program of a batch is generated under its own assignment;
   Oracle_Call       batch oracle for the calls made through the generated proxies and dispatchers (call transparency);
@@ -28,6 +33,11 @@ Binding:
   (2) one run of the binary per transition of the automaton (prefix + viable token + completion; prefix + end of
       input; prefix + non-viable token), plus random bytes, token soup and mutated valid programs: must terminate;
       in the language => exit 0 and compiling output; otherwise non-zero exit, or (lenient, logged) compiling output;
+      one run of the binary per include graph of IdlIncludeGraphs (the files of the graph laid out flat / with ./ / in a
+      sub-directory / behind the -include search path, the root file given bare, with ./, absolute, with ../): the child runs
+      under a time limit AND an output cap (run_capped: output beyond the cap is read and dropped, the process group is
+      killed at the limit); a run that does not end is repeated with a longer limit before it counts as "does not
+      terminate" (so does a run that ends in the Go runtime's stack overflow); TLC (Oracle_IncludeGraphs) judges;
   (3) tars/protocol/res/*.tars regenerated with the Makefile's flags and compared with the checked-in files.
 """
 import copy
@@ -68,6 +78,15 @@ def tlc_json_lines(out):
             except ValueError:
                 pass
     return res
+
+
+def as_indexed(x):
+    """ToJson of a TLA+ function over a set of record indices: an object, or -- when the set happens to be 1..n -- an array"""
+    if isinstance(x, dict):
+        return x
+    if isinstance(x, list):
+        return {str(i + 1): v for i, v in enumerate(x)}
+    return {}
 
 
 def run_tool(exe, args, cwd, timeout):
@@ -478,8 +497,7 @@ def judge_tokens(ctx, records, name, shards=8):
             tot["nvalid"] += js["nvalid"]
             tot["states"] += max(r.distinct, 1)
             tot["generated"] += max(r.generated, 1)
-            jb = js["bad"] if isinstance(js["bad"], dict) else {}
-            jl = js["lenient"] if isinstance(js["lenient"], dict) else {}
+            jb, jl = as_indexed(js["bad"]), as_indexed(js["lenient"])
             if sorted(int(k) for k in jb) != sorted(b):
                 raise Inconclusive("Oracle_IdlGrammar: details do not match the rejected set")
             for k, v in jb.items():
@@ -792,6 +810,421 @@ def pick_include_programs(ctx, recs):
               [x for x in four if x["graph"]["maxinc"] == 3 and not x["graph"]["diamond"]],
               [x for x in four if x["graph"]["maxinc"] < 3 and not x["graph"]["diamond"]]]
     return out + [rng.choice(st) for st in strata if st]
+
+
+# =============================================================================================== include graphs (any shape)
+
+INCG_MODS = ["Ga", "Gb", "Gc", "Gd", "Ge", "Gf"]
+INCG_MISSING = "Gz"
+INCG_LAYOUTS = ["flat", "dot", "sub", "search"]
+INCG_SPELL = ["bare", "dot", "abs", "unclean"]
+INCG_CONFIGS = {True: [(3, 2, 2), (5, 2, 1)], False: [(4, 2, 2), (5, 2, 1)]}
+INCG_T1, INCG_T2 = 10, 30            # seconds: every run; the second run that has to confirm a run that did not end
+INCG_CAP = 1 << 16                   # bytes of output kept per run (first and last half); the rest is read and dropped
+INCG_MARKERS = (b"goroutine stack exceeds", b"fatal error: stack overflow")
+
+
+def run_capped(argv, cwd, timeout, cap=INCG_CAP, markers=INCG_MARKERS, env=None):
+    """Run a child with a time limit AND an output cap: the output is read as it comes, the first and the last cap/2 bytes
+    are kept, everything else is counted, searched for `markers` and dropped (a tool that recurses for ever prints tens of
+    thousands of lines a second: nothing unbounded is kept, in memory or on disk).  At the limit the whole process group is
+    killed.  Returns dict(rc, timeout, secs, nbytes, head, tail, marks)."""
+    import select
+    import signal
+    t0 = time.time()
+    p = subprocess.Popen(argv, cwd=cwd, stdin=subprocess.DEVNULL, stdout=subprocess.PIPE, stderr=subprocess.STDOUT,
+                         env=env or env_go(), start_new_session=True, bufsize=0)
+    fd = p.stdout.fileno()
+    half = cap // 2
+    head, tail, carry, n, marks, to = b"", b"", b"", 0, set(), False
+    deadline = t0 + timeout
+    try:
+        while True:
+            left = deadline - time.time()
+            if left <= 0:
+                to = True
+                break
+            ready, _, _ = select.select([fd], [], [], min(left, 0.5))
+            if not ready:
+                continue
+            chunk = os.read(fd, 1 << 16)
+            if not chunk:
+                break
+            n += len(chunk)
+            scan = carry + chunk
+            for m in markers:
+                if m in scan:
+                    marks.add(m.decode())
+            carry = scan[-64:]
+            if len(head) < half:
+                head += chunk[:half - len(head)]
+            tail = (tail + chunk)[-half:]
+    finally:
+        if to or p.poll() is None:
+            try:
+                os.killpg(p.pid, signal.SIGKILL)
+            except OSError:
+                pass
+        p.stdout.close()
+        rc = p.wait()
+    return {"rc": -1 if to else rc, "timeout": to, "secs": round(time.time() - t0, 3), "nbytes": n,
+            "head": head.decode("utf-8", "replace"), "tail": tail.decode("utf-8", "replace"), "marks": sorted(marks)}
+
+
+def include_graph_family(ctx, files, rootlines, otherlines, name):
+    """IdlIncludeGraphs.tla: TLC enumerates every include graph over <= `files` files (lines to any file of the graph, the file
+    itself included, or to a missing file) and emits the closed canonical ones with their class.  The emitted set is compared
+    with an independent enumeration.  Returns ([{"incgraph", "class"}], run)."""
+    r = tlc.run(ctx, SPEC, "IdlIncludeGraphs", cfg="IncludeGraphs.cfg", workers=ctx.pick(1, 2), timeout=900, name=name, heap="1g",
+                extra_files={"IncludeGraphs.cfg": tmpl("IncludeGraphs.cfg.tmpl", FILES=files, ROOTLINES=rootlines, OTHERLINES=otherlines)})
+    tlc.require_clean(r, "IdlIncludeGraphs")
+    recs = {}
+    for x in tlc_json_lines(r.out):
+        if "incgraph" in x:
+            recs[json.dumps(x["incgraph"])] = x
+
+    def lines(maxl):
+        out = [()]
+        for k in range(1, maxl + 1):
+            out += list(itertools.permutations(range(0, files + 1), k))
+        return out
+
+    def canonical(g):
+        seen = []
+
+        def visit(i):
+            if i == 0 or i in seen:
+                return
+            seen.append(i)
+            for t in g[i - 1]:
+                visit(t)
+        visit(1)
+        return seen == list(range(1, len(g) + 1))
+
+    l1, lo = lines(rootlines), lines(otherlines)
+    want, states = set(), 1
+    for n in range(1, files + 1):
+        states += len(l1) * len(lo) ** (n - 1)
+        for g in itertools.product(l1, *([lo] * (n - 1))):
+            if all(t <= n for s in g for t in s) and canonical(g):
+                want.add(json.dumps([list(s) for s in g]))
+    if r.distinct != states or set(recs) != want:
+        raise Inconclusive("IdlIncludeGraphs emitted %d graphs in %d states, expected %d in %d" % (len(recs), r.distinct, len(want), states))
+    return [recs[k] for k in sorted(recs)], r
+
+
+def incg_reference_class(g):
+    """(only used to order the runs and to cross-check TLC's class in the evidence; the verdict is Oracle_IncludeGraphs')"""
+    def reach(i):
+        s = {t for t in g[i - 1] if t}
+        for _ in g:
+            s |= {t for j in s for t in g[j - 1] if t}
+        return s
+    below = {1} | reach(1)
+    return not any(i in reach(i) for i in below) and not any(0 in g[i - 1] for i in below)
+
+
+def incg_kind(cls):
+    if cls.get("cycle", 0) == 1:
+        return "circular-include:self-include"
+    if cls.get("cycle", 0) > 1:
+        return "circular-include:cycle-of-%d-files" % cls["cycle"]
+    if cls.get("missing"):
+        return "include-of-missing-file"
+    return "acyclic-includes" + (":diamond" if cls.get("diamond") else ":triangle" if cls.get("triangle") else "")
+
+
+def incg_where(cls):
+    if cls.get("lang"):
+        return ""
+    return (", the root file on the cycle" if cls.get("root_on_cycle") else ", below the root file" if cls.get("cycle") else "") + \
+           (", met through a later include line of the root only" if cls.get("later_line") else "")
+
+
+def incg_files(g, layout):
+    """{path relative to the test directory: text} and the extra arguments of the tool.  Every file is one module with a struct S
+    that has a member of the struct of every file it includes (not of itself: a struct cannot contain itself)."""
+    n = len(g)
+
+    def place(i):
+        if i == 1 or layout in ("flat", "dot"):
+            return ""
+        return "sub/" if layout == "sub" else "lib/"
+
+    def line(i, t):
+        name = (INCG_MODS[t - 1] if t else INCG_MISSING) + ".tars"
+        if layout == "dot":
+            return "./" + name
+        if layout == "sub" and t:
+            if i == 1:
+                return place(t) + name
+            return ("../" if t == 1 else "") + name
+        return name
+
+    files = {}
+    for i in range(1, n + 1):
+        out = ['#include "%s"' % line(i, t) for t in g[i - 1]]
+        mems = ["0 require int v;"]
+        for p, t in enumerate(g[i - 1], 1):
+            if t != i:
+                mod = INCG_MODS[t - 1] if t else INCG_MISSING
+                mems.append("%d optional %s f%d;" % (p, ("%s::S" if p % 2 else "vector<%s::S>") % mod, p))
+        out.append("module %s\n{\n    struct S\n    {\n        %s\n    };\n};" % (INCG_MODS[i - 1], "\n        ".join(mems)))
+        files[place(i) + INCG_MODS[i - 1] + ".tars"] = "\n".join(out) + "\n"
+    return files, (["-include=lib;."] if layout == "search" else [])
+
+
+def incg_run(exe, h, t, timeout):
+    d = os.path.join(h, "incg", t["id"])
+    shutil.rmtree(d, ignore_errors=True)
+    files, extra = incg_files(t["inc"], t["layout"])
+    for rel, text in files.items():
+        os.makedirs(os.path.dirname(os.path.join(d, rel)), exist_ok=True)
+        with open(os.path.join(d, rel), "w") as f:
+            f.write(text)
+    root = {"bare": "Ga.tars", "dot": "./Ga.tars", "abs": os.path.join(d, "Ga.tars"), "unclean": "../%s/Ga.tars" % t["id"]}[t["spell"]]
+    argv = [exe, "-outdir=o", "-module=verifharness/incg/%s" % t["id"]] + extra + [root]
+    r = run_capped(argv, d, timeout)
+    r["argv"] = ["tars2go"] + argv[1:]
+    r["files"] = sorted(glob.glob(os.path.join(d, "o", "*", "*.go"))) if r["rc"] == 0 else []
+    r["stack_overflow"] = bool(r["marks"])
+    return r
+
+
+def incg_compile(ctx, h, tests, results):
+    """what exit 0 emitted has to compile: one go build over all accepted tests; if that fails, one per test"""
+    acc = [t["id"] for t in tests if t["id"] in results and results[t["id"]]["rc"] == 0]
+    for t in tests:
+        r = results.get(t["id"])
+        if r is not None:
+            r["compiled"], r["cerr"] = False, ""
+            if r["rc"] != 0:
+                shutil.rmtree(os.path.join(h, "incg", t["id"], "o"), ignore_errors=True)
+    if not acc:
+        return 0
+    rc, so, se = sh(["go", "build", "./incg/..."], cwd=h, env=env_go(), timeout=900, check=False)
+    for tid in acc:
+        if rc == 0:
+            results[tid]["compiled"] = True
+            continue
+        if not results[tid]["files"]:
+            results[tid]["compiled"] = True            # nothing emitted: vacuously usable
+            continue
+        rc1, so1, se1 = sh(["go", "build", "./incg/%s/..." % tid], cwd=h, env=env_go(), timeout=600, check=False)
+        results[tid]["compiled"] = rc1 == 0
+        results[tid]["cerr"] = (so1 + se1)[:800]
+    return len(acc)
+
+
+def judge_incgraphs(ctx, orecs, name):
+    """Oracle_IncludeGraphs over the run records.  Returns (bad {idx0: info}, lenient [idx0], nlang, tlc result)."""
+    p = os.path.join(ctx.sub(name), "recs.ndjson")
+    with open(p, "w") as f:
+        for r in orecs:
+            f.write(json.dumps(r) + "\n")
+    total, b, r = oracle.judge_file(ctx, SPEC, "Oracle_IncludeGraphs", "OracleIncludeGraphs.cfg", p, name, timeout=1200)
+    js = [x for x in tlc_json_lines(r.out) if "nlang" in x]
+    if not js or total != len(orecs):
+        raise Inconclusive("Oracle_IncludeGraphs judged %d of %d records / printed no details" % (total, len(orecs)))
+    jb = as_indexed(js[0]["bad"])
+    if sorted(int(k) for k in jb) != sorted(b):
+        raise Inconclusive("Oracle_IncludeGraphs: details do not match the rejected set")
+    return {int(k) - 1: v for k, v in jb.items()}, [int(k) - 1 for k in js[0]["lenient"]], js[0]["nlang"], r
+
+
+def incg_diag_class(text):
+    """class of the tool's last word, without file names and paths (they contain the scratch directory)"""
+    lines = [l for l in text.splitlines() if l.strip()]
+    plain = [l for l in lines if not re.match(r"^\d{4}/\d\d/\d\d ", l)] or lines[-1:]
+    if not plain:
+        return "no-diagnostic"
+    l = re.sub(r"^\d{4}/\d\d/\d\d \d\d:\d\d:\d\d ", "", plain[-1])
+    l = re.sub(r"\S*/\S*|\S+\.tars\S*|\w+::\w+", " ", l)
+    l = re.sub(r"[A-Za-z_0-9]*\d[A-Za-z_0-9]*", "", l)
+    return re.sub(r"[^A-Za-z]+", "-", l).strip("-").lower()[:60] or "no-diagnostic"
+
+
+def incg_signature(info, res):
+    v, kind = info["v"], incg_kind(info["class"])
+    if v == "valid-rejected":
+        return "C16:valid-rejected:%s:%s" % (kind, incg_diag_class(res["tail"]))
+    if v in ("valid-does-not-compile", "accepted-but-does-not-compile"):
+        return "C16:%s:%s:%s" % (v, kind, go_error_class(res["cerr"]))
+    return "C16:%s:%s" % (v, kind)
+
+
+def include_graphs(ctx, exe, h):
+    """clauses 1 and 2 over include graphs of any shape: TLC enumerates the graphs, the binary runs on the files of each (time limit
+    and output cap, timeouts confirmed by a longer run on their own), TLC judges the observations."""
+    fams, rs = [], []
+    with ThreadPoolExecutor(max_workers=2) as ex:
+        for recs, r in ex.map(lambda c: include_graph_family(ctx, c[0], c[1], c[2], "incgraphs-%d-%d-%d" % c), INCG_CONFIGS[ctx.quick]):
+            fams.append(recs)
+            rs.append(r)
+    graphs = {}
+    for recs in fams:
+        for x in recs:
+            graphs.setdefault(json.dumps(x["incgraph"]), x)
+    keys = sorted(graphs, key=lambda k: (len(graphs[k]["incgraph"]), k))
+    rng = random.Random(ctx.seed * 977 + 3)
+    tests = []
+    for gi, k in enumerate(keys):
+        x = graphs[k]
+        if incg_reference_class(x["incgraph"]) != x["class"]["lang"]:
+            raise Inconclusive("IdlIncludeGraphs: class of %s disagrees with the cross-check" % k)
+        n = len(x["incgraph"])
+        # thorough: the graphs of up to three files under every layout of the files; otherwise layouts and spellings of the root
+        # file in turn (seeded)
+        lays = INCG_LAYOUTS if (not ctx.quick and n <= 3) else [INCG_LAYOUTS[(gi + ctx.seed) % 4]]
+        for lay in lays:
+            tests.append({"id": "g%05d" % len(tests), "inc": x["incgraph"], "class": x["class"], "layout": lay,
+                          "spell": INCG_SPELL[(gi // 4 + len(tests) + ctx.seed) % 4]})
+    # order: one run per kind of graph first, then one per class, then the rest: if whole classes never end, that is known after a
+    # small wave (every such run costs the full time limit and, in a tool that recurses, a lot of memory) and the rest is dropped
+    def ckey(t):
+        c = t["class"]
+        return (c["lang"], c["cycle"], c["root_on_cycle"], c["missing"], c["later_line"], c["diamond"], c["triangle"])
+    first, second, rest, seenk, seenc = [], [], [], set(), set()
+    # (the representative of a kind of cycle: a graph in which nothing but the cycle is wrong, met through the first include line)
+    for t in sorted(tests, key=lambda t: (t["class"]["cycle"] > 0 and t["class"]["missing"], t["class"]["later_line"], len(t["inc"]), t["id"])):
+        k = incg_kind(t["class"])
+        (first if k not in seenk else second if ckey(t) not in seenc else rest).append(t)
+        seenk.add(k)
+        seenc.add(ckey(t))
+    rng.shuffle(rest)
+    results, dropped = {}, 0
+    t0 = time.time()
+    par = max(2, min(6, ctx.ncpu // 2))
+
+    def wave(ts, timeout, workers):
+        with ThreadPoolExecutor(max_workers=workers) as ex:
+            for t, r in zip(ts, ex.map(lambda t: incg_run(exe, h, t, timeout), ts)):
+                results[t["id"]] = r
+
+    def runaway(r):
+        return r["timeout"] or r["stack_overflow"]
+
+    # a run that did not end is run again with a longer limit (few at a time): only a second timeout (or the runtime's stack
+    # overflow) counts as "does not terminate".  One representative per kind of graph is confirmed; if all of them end the second
+    # time it was load: the other timeouts get their second run too and the corpus goes on.  Otherwise the remaining timeouts of the
+    # wave are not judged and the rest of the corpus is dropped.
+    waves = [(first, 4)] + [(second[i:i + 8], 4) for i in range(0, len(second), 8)] + [(rest[i:i + 400], par) for i in range(0, len(rest), 400)]
+    touts, confirm, unconfirmed, first_obs, nrun = [], [], [], {}, 0
+    for ts, workers in waves:
+        wave(ts, INCG_T1, workers)
+        nrun += len(ts)
+        new = [t for t in ts if runaway(results[t["id"]])]
+        if not new:
+            continue
+        touts += new
+        conf, rem, kinds = [], [], set()
+        for t in new:
+            k = incg_kind(t["class"])
+            if k not in kinds and len(conf) < 8:
+                kinds.add(k)
+                conf.append(t)
+            else:
+                rem.append(t)
+        first_obs.update({t["id"]: results[t["id"]] for t in conf})
+        wave(conf, INCG_T2, 3)
+        confirm += conf
+        if any(runaway(results[t["id"]]) for t in conf):
+            unconfirmed = rem
+            break
+        wave(rem, INCG_T2, 3)
+        first_obs.update({t["id"]: results[t["id"]] for t in rem if t["id"] not in first_obs})
+        confirm += rem
+    dropped = len(tests) - nrun
+    for t in unconfirmed:
+        del results[t["id"]]
+    tests = [t for t in tests if t["id"] in results]
+    ctx.log("include graphs: binary ran on %d graphs in %.1fs (%d runs did not end by themselves, %d run a second time with the longer limit, %d runs dropped)" %
+            (len(tests), time.time() - t0, len(touts), len(confirm), dropped + len(unconfirmed)))
+    nacc = incg_compile(ctx, h, tests, results)
+    orecs = []
+    for t in tests:
+        r = results[t["id"]]
+        orecs.append({"id": t["id"], "inc": t["inc"], "layout": t["layout"], "rc": r["rc"], "runaway": bool(r["timeout"] or r["stack_overflow"]),
+                      "diag": bool(r["rc"] != 0 and (r["head"] + r["tail"]).strip()), "compiled": r["compiled"]})
+    bad, lenient, nlang, rj = judge_incgraphs(ctx, orecs, "incgraph-oracle")
+    for idx, info in sorted(bad.items()):
+        t, r = tests[idx], results[tests[idx]["id"]]
+        if info["v"] == "malformed-record":
+            raise Inconclusive("include-graph record %s is not a graph" % t["inc"])
+        files, _ = incg_files(t["inc"], t["layout"])
+        fo = first_obs.get(t["id"])
+        how = "exit %s after %.1fs, %d bytes of output" % (r["rc"], r["secs"], r["nbytes"])
+        if r["timeout"]:
+            how = "no exit within %d s in a second run (%d bytes of output by then)%s" % (INCG_T2, r["nbytes"], "; first run: killed after %d s" % INCG_T1 if fo else "")
+        elif r["stack_overflow"]:
+            how = "recursed until the Go runtime's stack limit: exit %s after %.1fs, %d bytes of output%s" % (
+                r["rc"], r["secs"], r["nbytes"], "; first run: killed after %d s" % INCG_T1 if fo else "")
+        ctx.violate(incg_signature(info, r),
+                    "%s: include graph %s (%s%s; files laid out '%s', root given as '%s') -> %s %s" % (
+                        info["v"], json.dumps(t["inc"]), incg_kind(info["class"]), incg_where(info["class"]), t["layout"], t["spell"], how,
+                        (r["head"][:300] if orecs[idx]["runaway"] else (r["cerr"] or r["tail"])[-200:]).replace("\n", " | ")),
+                    {"graph": t["inc"], "class": info["class"], "layout": t["layout"], "files": files, "command": r["argv"],
+                     "exit": r["rc"], "seconds": r["secs"], "output_bytes": r["nbytes"], "output_head": r["head"][:1500], "output_tail": r["tail"][-1500:],
+                     "compile_error": r["cerr"], "first_run": {k: fo[k] for k in ("rc", "timeout", "secs", "nbytes")} if fo else None})
+    # binding self-test: falsified observations must be rejected, exactly those
+    good = [i for i in range(len(orecs)) if i not in bad and i not in lenient]
+    acc = [i for i in good if orecs[i]["rc"] == 0][:2]
+    cyc = [i for i in good if orecs[i]["rc"] != 0 and tests[i]["class"]["cycle"] > 0][:2]
+    mis = [i for i in good if orecs[i]["rc"] != 0 and tests[i]["class"]["cycle"] == 0][:1]
+    st = {"skipped": "violations are reported"}
+    if len(acc) == 2 and len(cyc) == 2 and len(mis) == 1:
+        sample = [json.loads(json.dumps(orecs[i])) for i in acc + cyc + mis] + [json.loads(json.dumps(orecs[i])) for i in acc[:1] + cyc[:1]]
+        sample[0]["rc"], sample[0]["diag"] = 1, True        # a diamond / chain reported as rejected
+        sample[1]["compiled"] = False                       # ... as emitting code that does not compile
+        sample[2]["runaway"] = True                         # a circular include that never ends
+        sample[3]["rc"], sample[3]["diag"], sample[3]["compiled"] = 0, False, False    # a circular include accepted with unusable output
+        sample[4]["diag"] = False                           # a missing file: non-zero exit without a word
+        sb, _, _, _ = judge_incgraphs(ctx, sample, "incgraph-oracle-selftest")
+        if sorted(sb) != [0, 1, 2, 3, 4] or [sb[k]["v"] for k in range(5)] != ["valid-rejected", "valid-does-not-compile", "hang", "accepted-but-does-not-compile", "no-diagnostic"]:
+            raise Inconclusive("include-graph oracle self-test failed: rejected %s" % {k: v["v"] for k, v in sb.items()})
+        st = {"records": len(sample), "corrupted": 5, "rejected_exactly_those": True}
+    elif not ctx.violations:
+        raise Inconclusive("include-graph self-test: not enough accepted / rejected records")
+    by_kind, diags = {}, {}
+    for i, t in enumerate(tests):
+        k = incg_kind(t["class"])
+        e = by_kind.setdefault(k, {"runs": 0, "exit_0": 0, "runaway": 0, "max_seconds": 0.0, "max_output_bytes": 0})
+        r = results[t["id"]]
+        e["runs"] += 1
+        e["exit_0"] += 1 if r["rc"] == 0 else 0
+        e["runaway"] += 1 if orecs[i]["runaway"] else 0
+        e["max_seconds"] = max(e["max_seconds"], r["secs"])
+        e["max_output_bytes"] = max(e["max_output_bytes"], r["nbytes"])
+        if r["rc"] not in (0, -1):
+            dc = incg_diag_class(r["tail"])
+            diags[dc] = diags.get(dc, 0) + 1
+    ex = next((t for t in tests if t["class"]["cycle"] == 2 and t["class"]["later_line"]), tests[-1])
+    ev = {
+        "what": "IdlIncludeGraphs.tla: every include graph (a line may name any file of the graph, the file itself included, or a file that does not "
+                "exist; order of the lines part of the graph) up to renumbering, all files reachable from the root; in the language = no cycle and "
+                "nothing missing below the root (diamonds, triangles: must be accepted and compile); anything else: must end with a diagnostic",
+        "families": [{"max_files": c[0], "root_lines": c[1], "other_lines": c[2], "states": r.distinct, "graphs": len(f)}
+                     for c, r, f in zip(INCG_CONFIGS[ctx.quick], rs, fams)],
+        "graphs": len(keys), "runs": len(tests), "in_language": nlang, "accepted_and_compiled": nacc,
+        "layouts": {l: sum(1 for t in tests if t["layout"] == l) for l in INCG_LAYOUTS},
+        "root_spellings": {s: sum(1 for t in tests if t["spell"] == s) for s in INCG_SPELL},
+        "by_class": by_kind,
+        "cycles_below_the_root": sum(1 for t in tests if t["class"]["cycle"] and not t["class"]["root_on_cycle"]),
+        "wrong_only_behind_a_later_include_line": sum(1 for t in tests if t["class"]["later_line"]),
+        "diamonds_in_language": sum(1 for t in tests if t["class"]["lang"] and t["class"]["diamond"]),
+        "diagnostics_seen": dict(sorted(diags.items(), key=lambda x: -x[1])[:8]),
+        "lenient_acceptances": len(lenient),
+        "time_limit_s": INCG_T1, "confirming_time_limit_s": INCG_T2, "output_cap_bytes": INCG_CAP,
+        "runs_that_did_not_end_by_themselves": len(touts), "second_runs_with_the_longer_limit": len(confirm),
+        "runs_dropped_after_timeouts": dropped + len(unconfirmed),
+        "rejected_by_oracle": len(bad), "oracle_states": max(rj.distinct, 1), "oracle_transitions": max(rj.generated, 1),
+        "gen_states": sum(r.distinct for r in rs), "gen_transitions": sum(r.generated for r in rs),
+        "selftest_falsified_observations": st,
+        "sample": {"graph": ex["inc"], "class": ex["class"], "layout": ex["layout"], "files": incg_files(ex["inc"], ex["layout"])[0],
+                   "command": results[ex["id"]]["argv"], "exit": results[ex["id"]]["rc"], "output_tail": results[ex["id"]]["tail"][-300:]},
+    }
+    shutil.rmtree(os.path.join(h, "incg"), ignore_errors=True)
+    return ev
 
 
 def tool_switches(exe):
@@ -1876,10 +2309,14 @@ def run(ctx):
         "switches is named by the switches whose single flip removes it",
         "schemas of generated structs come from lib/idl2schema.py (independent of tars2go); the codec oracles are those of C03/C04/C06",
         "operational reading of 'terminates with a diagnostic': within 5 s (10 s for valid programs), and exit 0 only with output that compiles",
+        "IdlIncludeGraphs.tla: an include graph is in the language iff no file below the root lies on a cycle and none names a missing file (diamonds and triangles are); "
+        "for the others 'terminates with a diagnostic' is read as: ends within %d s (a run that does not is repeated with %d s before it counts; ending in the Go runtime's "
+        "'stack overflow' after unbounded recursion counts as not terminating) with a non-zero exit and a message, or (lenient, observation) exit 0 with output that compiles" % (INCG_T1, INCG_T2),
         "call transparency of generated proxies/dispatchers is judged on an in-process loop (proxy -> model.Servant stub -> generated Dispatch, TARS version); the transport, filters, TUP/JSON requests are C01's / C10's; "
         "out parameters are handed in as fresh zero values (a re-used struct is C04's recorded finding); how a direction is spelled in Go (value / pointer) is an observation, not judged",
     ]
     exe = gobuild.build_tars2go(ctx)
+    hstage = gobuild.stage_harness(ctx)          # staged before the threads start (they all use it)
     # the clauses run in threads: serialise the bookkeeping of violations
     import threading
     lock, plain_violate = threading.Lock(), ctx.violate
@@ -1893,6 +2330,7 @@ def run(ctx):
     fmc = pool.submit(tlc.run, ctx, SPEC, "MC_IdlGrammar", cfg="MC_IdlGrammar.cfg", workers=1, timeout=600, name="mc-grammar")
     fmc2 = pool.submit(tlc.run, ctx, SPEC, "IdlPrograms", cfg="MC_IdlPrograms.cfg", workers=2, timeout=800, name="mc-programs")
     f3 = pool.submit(clause3, ctx, exe)
+    fig = pool.submit(include_graphs, ctx, exe, hstage)
 
     # ---- clause 1: sample the program family
     nprog = ctx.pick(40, 600)
@@ -1929,6 +2367,7 @@ def run(ctx):
     fraw1 = pool.submit(clause2_raw, ctx, exe, [], ["random-bytes", "token-soup"], ctx.pick(1000, 50000), "n")
 
     c3 = f3.result()
+    cig = fig.result()
     bevs, bres = [], []
     for f in fb:
         ev, br = f.result()
@@ -1974,18 +2413,19 @@ def run(ctx):
     if (not multi or not any(x["graph"]["diamond"] for x in incs)) and not ctx.violations:
         raise Inconclusive("no include graph with several include lines / no diamond among the programs of this run")
     ctx.coverage = {
-        "states": rmc.distinct + rmc2.distinct + sig_states + c2["gen_states"] + c2["oracle_states"] + craw["oracle_states"] + sum(e.get("oracle_states", 0) for e in bevs),
-        "transitions": rmc.generated + rmc2.generated + sig_trans + sim_states + c2["gen_transitions"] + c2["oracle_transitions"] + sum(e.get("oracle_transitions", 0) for e in bevs),
-        "traces_validated_against_impl": c2["runs"] + craw["raw_inputs"] + enc + dec + calls + c3["files_compared"],
-        "samples": [c2["sample"]] + [c["sample"] for c in cevs[:1]],
-        "evaluations": c2["runs"] + craw["raw_inputs"] + enc + dec + calls + c3["files_compared"],
-        "distinct_nontrivial": c2["token_tests"] + judged,
+        "states": rmc.distinct + rmc2.distinct + sig_states + c2["gen_states"] + c2["oracle_states"] + craw["oracle_states"] + sum(e.get("oracle_states", 0) for e in bevs) + cig["gen_states"] + cig["oracle_states"],
+        "transitions": rmc.generated + rmc2.generated + sig_trans + sim_states + c2["gen_transitions"] + c2["oracle_transitions"] + sum(e.get("oracle_transitions", 0) for e in bevs) + cig["gen_transitions"] + cig["oracle_transitions"],
+        "traces_validated_against_impl": c2["runs"] + craw["raw_inputs"] + enc + dec + calls + c3["files_compared"] + cig["runs"],
+        "samples": [c2["sample"]] + [c["sample"] for c in cevs[:1]] + [cig["sample"]],
+        "evaluations": c2["runs"] + craw["raw_inputs"] + enc + dec + calls + c3["files_compared"] + cig["runs"],
+        "distinct_nontrivial": c2["token_tests"] + judged + cig["graphs"],
         "rule": "clause 1: %d programs sampled by TLC's simulator from IdlPrograms (seed %d) + one program per batch with every operation signature "
                 "enumerated by TLC from IdlSignatures + the programs of the include graphs enumerated by TLC from IdlIncludes, %d batches, every program "
                 "under its own assignment of the tool's switches (IdlSwitches); per generated struct type random values "
                 "-> real WriteTo/ReadFrom judged by Oracle_Schema, mutants (extra, absent, prefix, inflate, subst) judged by Oracle_Dec; per generated "
                 "operation calls through the generated proxy looped back into the generated dispatcher with a recording servant, judged by Oracle_Call; "
-                "clause 2: one run of the binary per (configuration, token) of the automaton (stack depth <= %d) + raw inputs; clause 3: file-by-file diff"
+                "clause 2: one run of the binary per (configuration, token) of the automaton (stack depth <= %d) + raw inputs + one run per include graph of "
+                "IdlIncludeGraphs (cycles, missing files, diamonds; time limit, output cap, timeouts confirmed by a longer run); clause 3: file-by-file diff"
                 % (nprog, ctx.seed, nb, c2["stack_depth"]),
         "mc_grammar": {"distinct": rmc.distinct, "generated": rmc.generated, "depth": rmc.depth},
         "mc_programs_tiny_instance": {"distinct": rmc2.distinct, "generated": rmc2.generated},
@@ -2005,6 +2445,7 @@ def run(ctx):
                                  "what": "IdlIncludes.tla: every acyclic include graph over <= 4 files (order of the include lines part of the graph), all files reachable "
                                          "from the root; each file uses struct, enum (default by member name), container and array types of EVERY file it includes, "
                                          "in members, parameters and return values"},
+        "include_graphs_of_any_shape": {k: v for k, v in cig.items() if k != "sample"},
         "switch_family": dict(sw_ev, **dict(switch_coverage(used), programs=len(used), documented_effect_seen_in_emitted_code=effects,
                               what="IdlSwitches.tla: every assignment of the switches that change the emitted code; each program of a batch is generated "
                                    "under its own assignment and goes through compiler, codec oracles and call-transparency oracle with it")),
